@@ -507,6 +507,104 @@ def rule_Rcomb(text, method, kind, n, deltas, where):
     raise AssembleError('%s: //@comb %s: occurrence %d not found' % (where, method, n))
 
 
+def rule_R10(text, deltas, where):
+    """R10: the function's tail expression is a `loop { .. }`: every `break EXPR` of that loop -> `return EXPR`
+    (Verus has no valued `break`; a valued break of the tail loop IS the function's return)."""
+    toks = code_tokens(text)
+    T = lambda j: text[toks[j][1]:toks[j][2]]
+    # the last top-level item of the body must be `loop { .. }`
+    if T(0) != '{':
+        raise AssembleError('%s: R10: body does not start with `{`' % where)
+    end = match_close(text, toks, 0)
+    j = 1
+    last_loop = None
+    while j < end:
+        if T(j) == 'loop' and T(j + 1) == '{':
+            c = match_close(text, toks, j + 1)
+            if c + 1 == end:
+                last_loop = (j, c)
+            j = c + 1
+            continue
+        if T(j) in '([{':
+            j = match_close(text, toks, j) + 1
+            continue
+        j += 1
+    if last_loop is None:
+        raise AssembleError('%s: R10 does not apply (the tail expression is not a `loop`)' % where)
+    lo, hi = last_loop
+    edits = []
+    j = lo + 2
+    depth_loops = []
+    while j < hi:
+        t = T(j)
+        if t in ('loop', 'while', 'for'):
+            # skip nested loops entirely: their breaks are their own
+            k = j + 1
+            while k < hi and T(k) != '{':
+                if T(k) in '([':
+                    k = match_close(text, toks, k)
+                k += 1
+            j = match_close(text, toks, k) + 1
+            continue
+        if t == 'break' and T(j + 1) not in (';', '}', ','):
+            edits.append((toks[j][1], toks[j][2]))
+        j += 1
+    if not edits:
+        raise AssembleError('%s: R10 does not apply (no valued `break`)' % where)
+    for (a, b) in reversed(edits):
+        text = text[:a] + 'return' + text[b:]
+    deltas.append(dict(rule='R10', original='break EXPR (x%d, tail loop)' % len(edits), rewritten='return EXPR'))
+    return text
+
+
+def rule_Rsearch(text, deltas, where):
+    """Rsearch: `RECV.iter().position(CLOSURE)` / `.rposition(CLOSURE)` -> `verif_position(&RECV, CLOSURE)` /
+    `verif_rposition(..)`: generic helpers of the preamble, VERIFIED against the first / last index that satisfies the
+    predicate (that they agree with std's slice iterator is the assumption)."""
+    n = 0
+    while True:
+        toks = code_tokens(text)
+        T = lambda j: text[toks[j][1]:toks[j][2]]
+        hit = None
+        for j in range(3, len(toks) - 2):
+            if T(j) in ('position', 'rposition') and T(j - 1) == '.' and T(j - 2) == ')' and T(j - 3) == '(' and T(j - 4) == 'iter' and T(j - 5) == '.' and T(j + 1) == '(':
+                c = match_close(text, toks, j + 1)
+                # receiver before `.iter()`
+                r = j - 5
+                k = r - 1
+                while k >= 0:
+                    t = T(k)
+                    if t in (')', ']'):
+                        depth = 0
+                        while k >= 0:
+                            tt = T(k)
+                            if tt in (')', ']', '}'): depth += 1
+                            elif tt in ('(', '[', '{'):
+                                depth -= 1
+                                if depth == 0: break
+                            k -= 1
+                        k -= 1
+                        continue
+                    if (toks[k][0] in ('ident', 'num') and t not in ('return', 'let', 'in', 'match', 'if', 'else', 'mut')) or t in ('.', ':'):
+                        k -= 1
+                        continue
+                    break
+                start = toks[k + 1][1]
+                recv = text[start:toks[r][1]].strip()
+                clo = text[toks[j + 1][2]:toks[c][1]].strip()
+                new = 'verif_%s(&%s, %s)' % (T(j), recv, clo)
+                hit = (start, toks[c][2], new)
+                break
+        if not hit:
+            break
+        deltas.append(dict(rule='Rsearch', original=text[hit[0]:hit[1]][:160], rewritten=hit[2][:160]))
+        text = text[:hit[0]] + hit[2] + text[hit[1]:]
+        n += 1
+    if n == 0:
+        raise AssembleError('%s: Rsearch does not apply (no `.iter().position/rposition(closure)`)' % where)
+    return text
+
+
 def name_return(sig, binder):
     """`-> T` -> `-> (binder: T)`"""
     toks = code_tokens(sig)
@@ -726,6 +824,10 @@ def expand_fn(fs, assumed_override=False, notes=None):
             body = rule_R16(body, deltas)
         if 'R17' in fs.rules:
             body = rule_R17(body, deltas)
+        if 'R10' in fs.rules:
+            body = rule_R10(body, deltas, where)
+        if 'Rsearch' in fs.rules:
+            body = rule_Rsearch(body, deltas, where)
         for (cm, ck, cn) in fs.combs:
             body = rule_Rcomb(body, cm, ck, cn, deltas, where)
         for (rule, frm, to, cnt) in fs.subs:
